@@ -3,7 +3,12 @@ case-preserving mapping kept as a plain Python list of [key, value] pairs.
 Independent of the repository (no import of debian.*).  Keys are ASCII or
 belong to the class the C09 module admits at import time (simple_case_name:
 one-to-one lower/upper pairs, ``str.casefold() == str.lower()``, no context
-rules, NFC), so ``str.lower`` is the whole of "case-insensitive" here.
+rules, NFC) or - since round 9 - to the widened class it checks there as well
+(readings_agree: on ALL spellings the workload and the observation use,
+``str.lower`` and ``str.casefold`` induce the same equivalence; spellings of
+one name may differ in length, e.g. U+0130 and 'i' + U+0307), so ``str.lower``
+is the whole of "case-insensitive" here.  Blank-like characters inside a
+name are ordinary characters to the model.
 """
 
 
